@@ -6,8 +6,9 @@
    A history is an UNBOUNDED list of operations on any number of branches sharing
    the fence table:   HDeliver k phase fault   one delivery of prepare / commit /
    rollback (or an invalid phase) for branch k, optionally with a database
-   failure injected at its n-th driver operation;   HRace k p1 p2 sched   two
-   deliveries for branch k whose statements interleave according to sched.
+   failure injected at its n-th driver operation;   HRace k p1 p2 f1 f2 sched   two
+   deliveries for branch k whose statements interleave according to sched, each optionally with a
+   database failure at one of its row / lock operations.
    try_of / confirm_of / cancel_of count the COMMITTED business effects. *)
 From Coq Require Import List NArith Bool Arith.
 From SeataV Require Import Fence.FenceModel Fence.FenceRace Fence.FenceProofs Fence.FenceDriverProofs.
@@ -58,10 +59,11 @@ Theorem C06_atomic : forall w k ph fault,
   (forall k', k' <> k -> get w' k' = get w k').
 Proof. exact atomic. Qed.
 
-(* two racing deliveries for one branch: every initial record, every pair of phases, every
-   schedule (of any length) of their statements under the unique key / row lock *)
-Theorem C06_race : forall row p1 p2 sched,
-  let r := race row p1 p2 sched in
+(* two racing deliveries for one branch: every initial record, every pair of phases, a database
+   failure at any (or no) row / lock operation of either delivery, every schedule (of any length) of
+   their statements under the unique key / row lock *)
+Theorem C06_race : forall row p1 p2 f1 f2 sched,
+  let r := race row p1 p2 f1 f2 sched in
   done (r_t0 r) = true /\ done (r_t1 r) = true /\ s_owner (r_sh r) = None /\
   legal2 row (s_row (r_sh r)) (s_effs (r_sh r)) = true /\
   cnt_of (s_row (r_sh r)) = add_effs (cnt_of row) (s_effs (r_sh r)) /\
@@ -102,7 +104,7 @@ Proof. vm_compute. repeat split. Qed.
 Example C06_suspension_nonvacuous :
   let h1 := [HDeliver 7 Prepare None; HDeliver 7 Commit None] in
   c_row (get (run_hist [] h1) 8) = None /\
-  get (run_hist [] (h1 ++ [HDeliver 8 Rollback None; HDeliver 8 Prepare None; HRace 8 Prepare Rollback [true; false];
+  get (run_hist [] (h1 ++ [HDeliver 8 Rollback None; HDeliver 8 Prepare None; HRace 8 Prepare Rollback None None [true; false];
                            HDeliver 8 Commit None])) 8 = mkC (Some Suspended) (0, 0, 0) /\
   get (run_hist [] h1) 7 = mkC (Some Committed) (1, 1, 0).
 Proof. vm_compute. repeat split. Qed.
@@ -112,9 +114,9 @@ Example C06_history_nonvacuous :
   get (run_hist [] [HDeliver 1 Prepare (Some 3%nat); HDeliver 1 Prepare None; HDeliver 1 Commit (Some 4%nat);
                     HDeliver 1 Commit None; HDeliver 1 Commit None; HDeliver 1 Rollback None]) 1
     = mkC (Some Committed) (1, 1, 0) /\
-  get (run_hist [] [HRace 2 Prepare Rollback [true; true; true]; HDeliver 2 Rollback None]) 2
+  get (run_hist [] [HRace 2 Prepare Rollback None None [true; true; true]; HDeliver 2 Rollback None]) 2
     = mkC (Some Suspended) (0, 0, 0) /\
-  get (run_hist [] [HRace 3 Prepare Rollback []; HDeliver 3 Rollback None]) 3
+  get (run_hist [] [HRace 3 Prepare Rollback None (Some F1) []; HDeliver 3 Rollback None]) 3
     = mkC (Some Rollbacked) (1, 0, 1).
 Proof. vm_compute. repeat split. Qed.
 
